@@ -595,6 +595,22 @@ func (fx *FuncCtx) specCall(env *specEnv, x *ast.CallExpr) sval {
 		return sval{fx.mathIsNaN(argT(0)), nil}
 	case "isInf":
 		return sval{fx.mathIsInf(argT(0), 0), nil}
+	case "sortedFloats":
+		// sort.Float64sAreSorted(s): no element is less than its predecessor in sort's order
+		sv, ok := arg(0).v.(SliceV)
+		if !ok {
+			fx.unsupportedf("spec: sortedFloats of non-slice")
+		}
+		es := fx.elemSort(sv.Elem)
+		name := memName(sv.Elem)
+		m := fx.heapGet(env.cur, name, fx.memSort(sv.Elem))
+		row := Select(m, sv.Rid, ArraySort(SInt, es))
+		q := fx.freshName("q_so")
+		a := Select(row, Add(sv.Off, Term{q, SInt}), es)
+		b := Select(row, Add(sv.Off, Sub(Term{q, SInt}, IntLit(1))), es)
+		lt := fx.floatOp(token.LSS, a, b, es, x).(Term)
+		less := Or(lt, And(fx.mathIsNaN(a), Not(fx.mathIsNaN(b))))
+		return sval{Term{fmt.Sprintf("(forall ((%s Int)) (=> (and (<= 1 %s) (< %s %s)) (not %s)))", q, q, q, sv.Len.S, less.S), SBool}, nil}
 	case "same":
 		// identity of values (bit-for-bit for floats), as opposed to IEEE ==
 		a, ok1 := unwrapScalar(arg(0).v)
